@@ -14,8 +14,8 @@
                                        "even if it's nil" :711; all events of the message are
                                        forwarded before the next Recv :779-790)
     sendError               :601   → terminate
-    event loop, error branch :701  → Rules.reports (is the error recvMessage returned handed to sendError
-                                       before the goroutine returns?) — `withRules`, `genRules`
+    event loop, error branch :701  → RRules.reports (is the error recvMessage returned handed to sendError
+                                       before the goroutine returns?) — `withRules`, `genRRules`
   and /repo/pkg/state/protobuf/server/server.go
     Watch                   :314   → reconnect (options → inner Watch/WatchKind/WatchKindAggregated,
                                        invalid bookmark → FailedPrecondition :393, any other
@@ -180,7 +180,7 @@ def rrunCore (s : Ring × RClient) (steps : List RStep) : Ring × RClient := ste
 
 /-! ### the same machine, reading the facts regenerated from client.go / server.go
 
-`rstep` (= `withRules genRules rstepFacts`, below) is what the driver runs. Where a fact is `false` it does what the code would do
+`rstep` (= `withRules genRRules rstepFacts`, below) is what the driver runs. Where a fact is `false` it does what the code would do
 WITHOUT the corresponding statement (the original option is kept, the check is skipped,
 the error is retried, …); nothing is proved about that machine. -/
 
@@ -261,20 +261,20 @@ def rstepFacts (s : Ring × RClient) : RStep → Ring × RClient
 `recvMessage` returns an error when the watch cannot go on (retries disabled, no bookmark seen,
 back-off exhausted, bookmark refused); the event loop must hand it to `sendError` — the
 subscriber's ONLY sign that the watch is over — and return. Whether it does, per kind of error,
-is the parameter `Rules.reports`; `genRules` reads it off the current source text (fail closed).
+is the parameter `RRules.reports`; `genRRules` reads it off the current source text (fail closed).
 A step that ends the watch without reporting leaves the client `done` WITHOUT the terminal
 `Errored` in what was handed to the subscriber: the watch has gone silent. -/
 
-structure Rules where
+structure RRules where
   /-- is an error recvMessage returned, of this kind (after unwrapping: the retry loop wraps with %w,
       client.go:653), handed to `sendError` before the goroutine returns? -/
   reports : RecvErr → Bool
 
 /-- what the property demands (and client.go:702 does): every error is reported -/
-def goodRules : Rules := { reports := fun _ => true }
+def goodRRules : RRules := { reports := fun _ => true }
 
 /-- the rule of the CURRENT source text; unrecognised shape ⇒ nothing is reported -/
-def genRules : Rules :=
+def genRRules : RRules :=
   { reports := fun
       | .status => Gen.RWatch.eventLoopReportsStatus && Gen.RWatch.sendErrorSendsErrored
       | .eof => Gen.RWatch.eventLoopReportsEOF && Gen.RWatch.sendErrorSendsErrored }
@@ -295,7 +295,7 @@ def isDonePhase : RPhase → Bool
 
 /-- a step function with the event loop's error branch governed by `r`: when the step ends the
     watch and the rule does not report that error, nothing is handed to the subscriber -/
-def withRules (r : Rules) (f : Ring × RClient → RStep → Ring × RClient) (s : Ring × RClient) (st : RStep) :
+def withRules (r : RRules) (f : Ring × RClient → RStep → Ring × RClient) (s : Ring × RClient) (st : RStep) :
     Ring × RClient :=
   let t := f s st
   match t.2.phase with
@@ -305,9 +305,9 @@ def withRules (r : Rules) (f : Ring × RClient → RStep → Ring × RClient) (s
   | _ => t
 
 /-- the machine of the current source text: every regenerated fact read -/
-def rstepW (r : Rules) : Ring × RClient → RStep → Ring × RClient := withRules r rstepFacts
+def rstepW (r : RRules) : Ring × RClient → RStep → Ring × RClient := withRules r rstepFacts
 
-def rstep : Ring × RClient → RStep → Ring × RClient := rstepW genRules
+def rstep : Ring × RClient → RStep → Ring × RClient := rstepW genRRules
 
 def rrun (s : Ring × RClient) (steps : List RStep) : Ring × RClient := steps.foldl rstep s
 
